@@ -173,7 +173,7 @@ CHECKS = {
     ),
     "C19": (
         "Enumerated rejection matrix x Hypothesis-generated valid arguments, differential against the valid variant of each call",
-        "The 33 cells (invalid-specification class x entry point reaching it) are enumerated; the otherwise valid arguments are generated; oracle: "
+        "The 53 cells (invalid-specification class x entry point reaching it) are enumerated; the otherwise valid arguments are generated; oracle: "
         "the valid variant(s) return and the invalid variant raises from package code (both permeate conditions incl. p = 0, mixture without "
         "parameters, NRTL/UNIQUAC without parameters or component constants, curve without data, single experiment without Ea for either component). Exploration "
         "over arguments, exhaustive over cells.",
